@@ -26,7 +26,7 @@ def plan(tier):
 
 def strategy(tier):
     return st.one_of(machine_spec("general", tier), machine_spec("general", tier), machine_spec("suspend", tier),
-                     machine_spec("multi_pool", tier), machine_spec("twins", tier), machine_spec("huge", tier))
+                     machine_spec("multi_pool", tier), machine_spec("twins", tier), machine_spec("huge", tier), machine_spec("branches", tier))
 
 
 _pool_run_case = make_run_case({"C03"}, lambda o: {"had_failure", "suspension_finished", "batch_ge2"} <= set(o.labels))
